@@ -82,6 +82,23 @@ B("B60", "C14-R1", [(SD, '''            # Attractor data computed while the node
 B("B61", "C14-R1", [(SCC, '''    if not sd.node_data(attach_at)["expanded"] or sd.node_data(attach_at)["skipped"]:
         # Data computed''', '''    if sd.node_data(attach_at)["expanded"]:
         # Data computed''')], "attach: reset guarded by the wrong polarity")
+B("B308", ["C08-K3"], [(CAND, """                avoid_bdd = avoid_bdd.l_or(state_bdd)
+                filtered_states.append(state)""", """                avoid_bdd = avoid_bdd.l_or(state_bdd)""")],
+  "pint filter: kept states are never collected (mutation sweep)")
+B("B309", ["C08-K4"], [("biobalm/symbolic_utils.py", """        n_var = ctx.find_network_variable(var)
+        if n_var is not None:""", """        n_var = ctx.find_network_variable(var)
+        if n_var is None:""")], "valuation_to_state decodes only the BDD variables that are NOT network variables (mutation sweep)")
+B("B310", ["C07-D4"], [("biobalm/control.py", """            self._control.append(list(map(dict, cs)))  # type: ignore""", """            pass""")],
+  "Intervention.__init__ never stores the canonical overrides (mutation sweep; the suite compares interventions built the same way)")
+B("B311", ["C12-A"], [("biobalm/_sd_attractors/attractor_symbolic.py", """        seeds.append(candidate | node_space)
+        sets.append(closure)""", """        seeds.append(candidate | node_space)""")],
+  "compute_attractors_symbolic records seeds but not their closures (mutation sweep)")
+B("B307", ["C03-G"], [("biobalm/_sd_algorithms/expand_attractor_seeds.py", "if var not in successor_space", "if var in successor_space")],
+  "expand_attractor_seeds: sibling motifs reduced to the variables the successor fixes (found by the mutation sweep)")
+B("B306", "C16-P3", [(SD, '''        network = state.get("network")
+        if network is None:''', '''        network = state.get("network")
+        if network is not None:''')],
+  "__setstate__ parses the text when the persisted network object IS present (found by the mutation sweep)")
 B("B305", "C10-F", [(SD, '''                if parent_pn is not None:
                     base_pn = parent_pn
                     percolate_space = node_space
